@@ -24,9 +24,15 @@ FIELDS = dict(Groups=["ATOM", "HETATM"], Ids=["1", "12345"], Names=["N", "CA", "
               Xs=["1.000", "-12.345", "-100.123", "1000.500"], Ys=["2.500", "-100.000"], Zs=["-3.250"], Charges=["", "1"])
 
 
+FIELDS_THOROUGH = dict(Groups=["ATOM", "HETATM"], Ids=["1", "12345"], Names=["N", "CA", "HB2", "HD11", "1HB"], Alts=["", "B"],
+                       Comps=["ALA", "DA", "A", "HOH"], Asyms=["A"], Seqs=["1", "-4", "1000", "9999", "-999"], ICodes=["", "B"],
+                       Xs=["1.000", "-12.345", "-100.123", "1000.500", "-999.999", "9999.999"], Ys=["2.500", "-100.000"], Zs=["-3.250"],
+                       Charges=["", "2"])
+
+
 def cfg_text(consts, emit, inv, spec="Spec", convs=("verbatim", "pdbx2")):
     s = f"SPECIFICATION {spec}\nCONSTANTS\n"
-    for k, v in FIELDS.items():
+    for k, v in CUR_FIELDS.items():
         s += f"  {k} = {{" + ", ".join(json.dumps(x) for x in v) + "}\n"
     s += "  Conventions = {" + ", ".join(json.dumps(c) for c in convs) + "}\n"
     for k, v in consts.items():
@@ -250,7 +256,12 @@ def feature(f):
                                    ("comp<3", len(f["comp"]) < 3), ("id5", len(f["id"]) >= 5)) if c) or "plain"
 
 
+CUR_FIELDS = FIELDS
+
+
 def run(ctx):
+    global CUR_FIELDS
+    CUR_FIELDS = FIELDS if ctx.quick else FIELDS_THOROUGH
     rng = random.Random(ctx.seed)
     ctx.rule = ("rows: product of atom_site value shapes (record type, id width, atom name 1-4, alt id, comp id 1-3, "
                 "residue number incl. negative / 4 digits, insertion code, coordinate widths 5-8, formal charge) x 2 "
@@ -278,7 +289,7 @@ def run(ctx):
     ctx.add_tlc(r, "shape emission")
     shapes = [json.loads(v[1:]) for v in r.printed if isinstance(v, str) and v.startswith("@")]
     want = 2
-    for v in FIELDS.values():
+    for v in CUR_FIELDS.values():
         want *= len(v)
     if len(shapes) != want:
         raise core.MachineryError(f"emitted {len(shapes)} shapes, expected {want}")
